@@ -17,6 +17,7 @@ CONSTANTS
   Weak_SaveBeforeValidate = FALSE
   Weak_NoRedo = FALSE
   Weak_SeenCommitUnchecked = FALSE
+  Weak_ResetKeepsOwner = FALSE
   Weak_AcceptsFromPreviousPeer = FALSE
   Weak_RedoAlwaysCountsPending = FALSE
   Weak_NilSlotAddressUnchecked = FALSE
